@@ -122,13 +122,19 @@ def replay_alignment(cases, chk):
     ok = 0
     for c in cases:
         oms_list = []
-        for i, b in enumerate(c['before']):
-            o = OMS(oms_id=i, el_id_list=[], el_list=[])
-            o.update_spectrum(freq(b['lo']), freq(b['hi']), guardband=0.0, grid=GRID,
-                              existing_spectrum=[val[x] for x in b['val']])
-            if (o.spectrum_bitmap.n_min, o.spectrum_bitmap.n_max) != (b['lo'], b['hi']):
-                raise Machinery('alignment bench: extent mismatch')
-            oms_list.append(o)
+        try:
+            for i, b in enumerate(c['before']):
+                o = OMS(oms_id=i, el_id_list=[], el_list=[])
+                # FlexGrid.AxisOf: a map given the frequencies of indices lo..hi (a quarter slot off the grid, away from the
+                # anchor, where the truncation keeps the index) spans exactly lo..hi
+                o.update_spectrum(freq(b['lo']), freq(b['hi']), guardband=0.0, grid=GRID,
+                                  existing_spectrum=[val[x] for x in b['val']])
+                if (o.spectrum_bitmap.n_min, o.spectrum_bitmap.n_max) != (b['lo'], b['hi']):
+                    raise ValueError(f'extent {o.spectrum_bitmap.n_min}..{o.spectrum_bitmap.n_max} for {b["lo"]}..{b["hi"]}')
+                oms_list.append(o)
+        except Exception as e:                                  # noqa
+            chk.violation(f'B2|update_spectrum|AxisOf|{type(e).__name__}', dict(before=c['before'], exception=f'{type(e).__name__}: {e}'))
+            continue
         key = tuple((b['lo'], b['hi'], ''.join(b['val'])) for b in c['before'])
         chk.case(('align',) + key, nontrivial=len({(b['lo'], b['hi']) for b in c['before']}) > 1)
         try:
@@ -175,7 +181,11 @@ def realign_records(chk):
         lo, hi = b.n_min - left, b.n_max + right            # a negative `left` shrinks the map from below
         keep = [v for n, v in zip(b.freq_index, b.bitmap) if lo <= n <= hi]
         newmap = [BitmapValue.UNUSABLE] * max(0, b.n_min - lo) + keep + [BitmapValue.UNUSABLE] * max(0, hi - b.n_max)
-        o.update_spectrum(freq(lo), freq(hi), guardband=b.guardband, grid=GRID, existing_spectrum=newmap)
+        try:
+            o.update_spectrum(freq(lo), freq(hi), guardband=b.guardband, grid=GRID, existing_spectrum=newmap)
+        except Exception as e:                                  # noqa  (FlexGrid.AxisOf: the map of indices lo..hi has hi-lo+1 slots)
+            chk.violation(f'B3|update_spectrum|AxisOf|{type(e).__name__}', dict(lo=lo, hi=hi, exception=f'{type(e).__name__}: {e}'))
+            continue
         before = [dict(lo=x.spectrum_bitmap.n_min, hi=x.spectrum_bitmap.n_max, runs=runs_of(x.spectrum_bitmap)) for x in oms_list]
         name = f'meshTopologyExampleV2.json[map {which} re-ranged by -{left}/+{right}, then aligned]'
         chk.case(('realign', which, left, right))
@@ -374,9 +384,54 @@ def shipped_records(chk):
     return recs
 
 
+def flexgrid(chk):
+    """FlexGrid.tla: the ITU grid arithmetic every map rests on.  TLC checks the lemmas on a window around the anchor and
+    emits one expectation per point; each is replayed into the real functions (frequencies in MHz from 193.1 THz are exact
+    doubles, so equality is exact)."""
+    import gnpy.topology.spectrum_assignment as sa
+    r = tlc.run('MC_FlexGrid', timeout=300, tag='c15-flexgrid')
+    chk.add_mc('MC_FlexGrid (grid lemmas + 823 cases emitted)', r)
+    hz = lambda mhz: 193.1e12 + mhz * 1e6                                            # noqa: E731
+    n = 0
+    for x in r.emitted:
+        c, e = x['c'], x['e']
+        got = {}
+        try:
+            if c['k'] == 'nm':
+                st, sp = sa.mvalue_to_slots(c['n'], c['m'])
+                bn, bm_ = sa.slots_to_m(st, sp)
+                lo, hi = sa.m_to_freq(c['n'], c['m'])
+                got = dict(start=st, stop=sp, flo=round((lo - 193.1e12) / 1e6), fhi=round((hi - 193.1e12) / 1e6), backN=bn, backM=bm_,
+                           f=round((sa.nvalue_to_frequency(c['n']) - 193.1e12) / 1e6))
+                exact = lo == hz(e['flo']) and hi == hz(e['fhi']) and sa.nvalue_to_frequency(c['n']) == hz(e['f'])
+                if not exact:
+                    got['inexact'] = 1
+            elif c['k'] == 'f':
+                got = dict(n=sa.frequency_to_n(hz(c['f'])))
+            else:
+                b = sa.Bitmap(hz(c['lo']), hz(c['hi']), 6.25e9, guardband=c['g'] * 1e6)
+                got = dict(nmin=b.n_min, nmax=b.n_max, len=len(b.bitmap), imin=b.freq_index_min, imax=b.freq_index_max)
+                ok_axis = (b.freq_index == list(range(b.n_min, b.n_max + 1)) and len(b.freq_index) == len(b.bitmap)
+                           and all(b.getn(b.geti(k)) == k for k in (b.n_min, b.n_max, (b.n_min + b.n_max) // 2)))
+                if not ok_axis:
+                    got['axis'] = 0
+        except Exception as ex:                                                       # noqa
+            got = dict(exception=type(ex).__name__)
+        chk.case(('flexgrid', json.dumps(c, sort_keys=True)))
+        n += 1
+        if got != e:
+            bad = sorted(k for k in set(got) | set(e) if got.get(k) != e.get(k))
+            chk.violation(f'B2|FlexGrid|{c["k"]}|{"+".join(bad)}', dict(case=c, expected=e, observed=got))
+    chk.traces += n
+    chk.cov['flexgrid_cases'] = n
+    chk.assume('grid arithmetic: frequencies on a 1.25 GHz raster within 9 indices of 193.1 THz, M <= 4, guard bands 0 / 6.25 / '
+               '15 GHz; frequency_to_n is modelled as the truncation it is (floor above the anchor, ceiling below)')
+
+
 def run(chk):
     rng = random.Random(chk.seed)
     quick = chk.tier == 'quick'
+    flexgrid(chk)
     # ---- B1
     cfg = (tlc.SPEC / 'MC_OmsMap.cfg').read_text()
     r = tlc.run('MC_OmsMap', cfg_text=cfg if not quick else cfg.replace('MaxOcc = 2', 'MaxOcc = 1'), timeout=1800,
@@ -514,5 +569,12 @@ def _mut_band_edge():
     sa.create_oms_bitmap = create
 
 
-MUTANTS = {'insert_left': _mut_insert_left, 'free_padding': _mut_free_padding, 'first_band_only': _mut_first_band_only,
+def _mut_floor_index():
+    """frequency_to_n 'made consistent' with floor division: below the anchor an off-grid frequency now rounds away from it"""
+    import math
+    import gnpy.topology.spectrum_assignment as sa
+    sa.frequency_to_n = lambda freq, grid=sa.DEFAULT_GRID: math.floor((freq - 193.1e12) / grid)
+
+
+MUTANTS = {'floor_index': _mut_floor_index, 'insert_left': _mut_insert_left, 'free_padding': _mut_free_padding, 'first_band_only': _mut_first_band_only,
            'reverse_unpaired': _mut_reverse_unpaired, 'band_edge': _mut_band_edge}
